@@ -14,7 +14,9 @@ def controls_for(prop):
         if not os.path.exists(mf) or not os.path.exists(os.path.join(d, "patch.diff")):
             continue
         m = json.load(open(mf))
-        if prop in m.get("detected_by", []):
+        # only the changes written *for* this property (and recorded as caught by it) are controls: detection by
+        # another property's check is incidental and may legitimately disappear when that check gets more precise
+        if m.get("property") == prop and prop in m.get("detected_by", []):
             out.append((d, m))
     return out
 
